@@ -17,11 +17,13 @@ Inductive outcome (A : Type) := Ok (a : A) | Err | Panic | Hang.
 Arguments Ok {A} _. Arguments Err {A}. Arguments Panic {A}. Arguments Hang {A}.
 
 (* profile: how `stack_pointer += page_size` behaves at 2^64 *)
-Inductive profile := Debug (* trap *) | Release (* wrap *) | Checked (* repaired: stop *).
+Inductive profile := Debug (* trap *) | Release (* wrap *) | Checked (* stop at the top of the address space *)
+  | Strict (* repaired code: stop at the top, and give up with no mapping when the search ends on a non-stack mapping *).
 
 Fixpoint walk (p : profile) (ms : list smap) (guard : N) (fuel : nat) (sp : N) : outcome (option smap * N) :=
   let m := find_mapping ms sp in
-  if may_be_stack m || negb (sp <=? guard) then Ok (m, sp)
+  if may_be_stack m then Ok (m, sp)
+  else if negb (sp <=? guard) then Ok (match p with Strict => None | _ => m end, sp)
   else match fuel with
        | O => Hang
        | S f =>
@@ -30,7 +32,7 @@ Fixpoint walk (p : profile) (ms : list smap) (guard : N) (fuel : nat) (sp : N) :
              match p with
              | Debug => Panic
              | Release => walk p ms guard f (sp' - W64)
-             | Checked => Ok (None, sp)
+             | Checked | Strict => Ok (None, sp)
              end
            else walk p ms guard f sp'
        end.
